@@ -27,6 +27,10 @@ pub trait Sweep: Sync + Send {
     fn exhaustive(&self) -> bool {
         false
     }
+    /// run after the random tier (sweeps over very large inputs, on which a stuck lexer call cannot be told from a slow one)
+    fn after_random(&self) -> bool {
+        false
+    }
 }
 
 pub trait Property: Sync + Send {
